@@ -80,6 +80,8 @@ class Fragment:
         self.src_loc = src_loc
         self.origins = None
         self.domain_renames = {}
+        # Names in `domains` put there by domain propagation, as opposed to defined by the user.
+        self._inherited_domains = set()
 
     def add_domains(self, *domains):
         for domain in flatten(domains):
@@ -133,6 +135,7 @@ class Fragment:
             for domain in self.iter_domains():
                 if domain not in subfrag.domains:
                     subfrag.add_domains(self.domains[domain])
+                    subfrag._inherited_domains.add(domain)
                 elif isinstance(subfrag, (Instance, IOBufferInstance)):
                     # Instances cannot define domains; a domain found here was propagated into
                     # this (user-owned, reused) object by an earlier elaboration and is stale.
@@ -155,6 +158,7 @@ class Fragment:
                 raise _cd.DomainError(f"Domain '{domain_name}' is used but not defined")
             if type(value) is _cd.ClockDomain:
                 self.add_domains(value)
+                self._inherited_domains.add(value.name)
                 # And expose ports on the newly added clock domain, since it is added directly
                 # and there was no chance to add any logic driving it.
                 new_domains.append(value)
@@ -170,7 +174,17 @@ class Fragment:
                 self.add_domains(new_fragment.domains.values())
         return new_domains
 
+    def _drop_inherited_domains(self):
+        # Fragment objects made by the user are reused when the same design is elaborated again;
+        # the domains an earlier elaboration propagated into them (or created in them) are stale.
+        for domain in self._inherited_domains:
+            self.domains.pop(domain, None)
+        self._inherited_domains = set()
+        for subfrag, name, src_loc in self.subfragments:
+            subfrag._drop_inherited_domains()
+
     def _propagate_domains(self, missing_domain, *, platform=None):
+        self._drop_inherited_domains()
         self._propagate_domains_down()
         new_domains = self._create_missing_domains(missing_domain, platform=platform)
         self._propagate_domains_down()
